@@ -134,9 +134,12 @@ pub mod openssl {
             #[verifier::external_body]
             pub fn mozilla_modern_v5(m: SslMethod) -> (r: Result<SslAcceptorBuilder, ErrorStack>)
                 ensures r matches Ok(b) ==> !b.alpn_restricted@ && b.min_tls@ == 13 && b.max_tls@ == 99 { unimplemented!() }
-            // the handshake may fail for any reason the peer chooses
+            // the handshake may fail for any reason the peer chooses, and lasts for as long as the peer likes: it runs in the
+            // connection's own thread, never in the accept loop (rule T-THREAD passes where the call stands)
             #[verifier::external_body]
-            pub fn accept(&self, s: crate::vnet::Stream) -> (r: Result<SslStream, HandshakeError>) { unimplemented!() }
+            pub fn accept(&self, s: crate::vnet::Stream, Ghost(in_conn_thread): Ghost<bool>) -> (r: Result<SslStream, HandshakeError>)
+                requires in_conn_thread //@C17.a_handshake_never_holds_up_the_accept_loop
+            { unimplemented!() }
         }
         impl SslAcceptorBuilder {
             // C16: the callback must answer acme-tls/1 when (and only when) the client offers it, and a fatal alert otherwise
@@ -207,6 +210,11 @@ pub mod vnet {
         #[verifier::external_body] pub fn incoming(&self) -> (r: Vec<Result<Stream, IoError>>)
             ensures forall|i: int| 0 <= i < r@.len() ==> (#[trigger] r@[i] matches Err(e) ==> e.origin@ == 1) { unimplemented!() }
     }
+    // what the accept loop iterates over: a connection attempt (accepted or failed), or - behind an adapter - an accepted connection
+    pub trait Attempt { spec fn is_conn(&self) -> bool; }
+    impl Attempt for Result<Stream, IoError> { open spec fn is_conn(&self) -> bool { self is Ok } }
+    impl Attempt for Stream { open spec fn is_conn(&self) -> bool { true } }
+    pub open spec fn is_connection<A: Attempt>(a: &A) -> bool { a.is_conn() }
     // iterator adapters on `incoming()` (rule T-ITER).  Keeping the accepted connections and dropping the failed accepts:
     #[verifier::external_body]
     pub fn accepted(v: Vec<Result<Stream, IoError>>) -> (r: Vec<Stream>)
@@ -222,9 +230,13 @@ pub mod vnet {
         requires forall|i: int| 0 <= i < v@.len() ==> (#[trigger] v@[i]) is Ok, //@C17.a_failed_accept_does_not_end_the_accept_loop
         ensures r@ == v@ { unimplemented!() }
     // std::thread::spawn: the closure runs, so its body's obligations are checked with no assumption on its inputs
+    // (rule T-THREAD gives every spawn the count of threads started so far)
+    pub tracked struct Spawned { pub ghost n: int }
+    impl Spawned { pub proof fn none() -> (tracked r: Spawned) ensures r.n == 0 { Spawned { n: 0 } } }
     #[verifier::external_body]
-    pub fn spawn<F: FnOnce() -> ()>(f: F) -> (h: JoinHandle<()>)
+    pub fn spawn<F: FnOnce() -> ()>(Tracked(c): Tracked<&mut Spawned>, f: F) -> (h: JoinHandle<()>)
         requires f.requires(()) //@C17.connection_thread_cannot_panic
+        ensures final(c).n == old(c).n + 1
     { unimplemented!() }
     // std::thread::JoinHandle.  A connection thread ends when its peer lets it end: whether it has finished is unknown until
     // `is_finished` says so, and `join` on a thread not known to have finished waits for as long as that peer likes.
